@@ -8,7 +8,7 @@
 From Coq Require Import Reals.
 From Coquelicot Require Import Coquelicot.
 From Cheetah Require Import Base.Mat Optics.Maps Bmadx.Coords Bmadx.DriftX Bmadx.DriftXProofs Bmadx.DriftXJac Bmadx.Tdc Bmadx.TdcProofs
-  Bmadx.QuadX Bmadx.QuadXProofs Bmadx.QuadXFlow.
+  Bmadx.QuadX Bmadx.QuadXProofs Bmadx.QuadXFlow Bmadx.QuadXJac.
 Open Scope R_scope.
 
 (** sqrt_one(x) = sqrt(1+x) - 1 *)
@@ -78,7 +78,7 @@ Proof. exact quadx_step_linear_block. Qed.
     cosine-like / sine-like functions Cf, Sf of the linear map at the strength |k| + eps: k_eff = -k + eps (k <= 0), -k - eps (k > 0) *)
 Theorem C07_quadx_coefficients_are_Cf_Sf : forall eps kc len, 0 <= eps -> kc <> 0 \/ 0 < eps ->
   qc_cx (le0 kc) eps kc len = Cf (qc_keff eps kc) len /\ qc_sx (le0 kc) eps kc len = Sf (qc_keff eps kc) len.
-Proof. intros eps kc len He Hnz. split; [exact (qc_cx_Cf eps kc len He Hnz) | exact (qc_sx_Sf eps kc len He Hnz)]. Qed.
+Proof. exact qc_cx_sx_Cf_Sf. Qed.
 
 (** ... but a21 = k1*sx*rel_p uses the strength k, not |k| + eps: the coded 2x2 block has determinant 1 -/+ eps*sx^2, i.e. it is
     symplectic exactly only for eps = 0 (explicit defect; <= 2^-52 * sx^2 for the coded eps) *)
@@ -87,6 +87,19 @@ Theorem C07_quadx_block_determinant : forall eps kc len relp, 0 <= eps -> kc <> 
   qc_a11 f eps kc len * qc_a22 f eps kc len - qc_a12 f eps kc len relp * qc_a21 f eps kc len relp
   = 1 - (if Rle_dec kc 0 then eps else - eps) * (qc_sx f eps kc len)².
 Proof. exact qc_det. Qed.
+
+(** (a) with the coded eps: for pz = 0 and ANY eps >= 0 (the code: qx_eps = 2^-52) one step acts on (x,px), (y,py) by the 2x2 blocks of
+    the linear map of the quadrupole of strength ke = k1 + eps (k1 > 0) / k1 - eps (k1 < 0), except for the two entries a21, which
+    use k1: the deviation from that linear map is EXACTLY (ke - k1) sx x resp. -(ke - k1) sy y, and |ke - k1| = eps *)
+Theorem C07_quadx_step_block_eps : forall eps Lf k1 l p0c m E q, 0 <= eps -> Lf <> 0 -> k1 <> 0 -> bpz q = 0 ->
+  let ke := qx_ke eps k1 in let M := base_untilted l ke 0 E in let q' := quadx_step eps Lf k1 l p0c m q in
+  bx q' = c0 (c0 M) * bx q + c1 (c0 M) * bpx q /\
+  bpx q' = c0 (c1 M) * bx q + c1 (c1 M) * bpx q + (ke - k1) * c1 (c0 M) * bx q /\
+  by_ q' = c2 (c2 M) * by_ q + c3 (c2 M) * bpy q /\
+  bpy q' = c2 (c3 M) * by_ q + c3 (c3 M) * bpy q - (ke - k1) * c3 (c2 M) * by_ q.
+Proof. exact quadx_step_block_eps. Qed.
+Theorem C07_quadx_ke_distance : forall eps k1, 0 <= eps -> Rabs (qx_ke eps k1 - k1) = eps.
+Proof. exact qx_ke_dist. Qed.
 
 (** (b) exact flow for eps := 0, ALL six coordinates (x, px, y, py, z, pz), every particle with 1 + pz > 0: a step of length l1
     followed by a step of length l2 is the step of length l1 + l2 (z included: the quadratic forms c1 x^2 + c2 x px + c3 px^2
@@ -119,15 +132,36 @@ Theorem C07_quadx_onaxis_is_driftx : forall eps n L k1 t p0c m q, 0 < p0c -> 0 <
   quadx_bmad eps n L k1 0 0 t p0c m q = driftx L p0c m q.
 Proof. exact quadx_onaxis_is_driftx. Qed.
 
+(** (c), series branch (evaluation < 3e-7 e_tot, the branch taken for small |pz|): the series is the degree-3 Taylor polynomial of the
+    exact branch; explicit remainder 4 |ds| (m/E)^2 beta0^4 pz^4 for |pz| <= 0.1 ... *)
+Theorem C07_lez_series_close : forall p0c m, 0 < p0c -> 0 < m -> forall pz ds, -1/10 <= pz <= 1/10 ->
+  Rabs (lez_series pz p0c m ds - lez_exact pz p0c m ds)
+  <= 4 * Rabs ds * (m / lez_etot p0c m)² * ((lez_beta0 p0c m)² * (lez_beta0 p0c m)²) * (pz * pz * pz * pz).
+Proof. exact lez_series_close. Qed.
+
+(** ... so that, whenever the code takes the series branch, an on-axis particle is moved like the Bmad-X drift of the same length:
+    x, px, y, py, pz exactly and z up to 3.6e-13 |L|, at every energy *)
+Theorem C07_quadx_onaxis_series_close : forall p0c m, 0 < p0c -> 0 < m -> forall eps n L k1 t q,
+  0 < 1 + bpz q -> -1/10 <= bpz q <= 1/10 -> onaxis q -> n <> O -> lez_small (bpz q) p0c m = true ->
+  let a := quadx_bmad eps n L k1 0 0 t p0c m q in let d := driftx L p0c m q in
+  bx a = bx d /\ bpx a = bpx d /\ by_ a = by_ d /\ bpy a = bpy d /\ bpz a = bpz d /\ Rabs (bz a - bz d) <= 3.6e-13 * Rabs L.
+Proof. exact quadx_onaxis_series_close. Qed.
+
+(** (e) R56: d tau'/d delta at the origin THROUGH cheetah_to_bmad_z_pz, the n coded steps (coded eps, any k1, tilt, num_steps) and
+    bmad_to_cheetah_z_pz equals entry [4][5] of the linear quadrupole map (= Drift R56 = -L/(beta0 gamma0)^2) *)
+Theorem C07_quadx_r56 : forall n L k1 tilt E0, m_e < E0 -> n <> O ->
+  is_derive (fun t => ctau (quad_bmadx_track n L k1 0 0 tilt E0 m_e (mkc 0 0 0 0 0 t))) 0 (c5 (c4 (base_untilted L k1 0 E0))).
+Proof. exact quadx_r56. Qed.
+
 (** (d) offset_particle_unset o offset_particle_set = id (and the other way round); as affine maps on (x,px,y,py,z,pz,1) they are
     rot(tilt) * misalignment_entry and misalignment_exit * rot(-tilt), the matrices Quadrupole.transfer_map conjugates with *)
 Theorem C07_quadx_offset_roundtrip : forall ox oy t q,
   off_unset ox oy t (off_set ox oy t q) = q /\ off_set ox oy t (off_unset ox oy t q) = q.
-Proof. intros. split; [apply off_roundtrip | apply off_roundtrip']. Qed.
+Proof. exact off_roundtrip_both. Qed.
 Theorem C07_quadx_offset_linear_part : forall ox oy t q,
   bvec (off_set ox oy t q) = rmvec (rmmul (rot t) (mis_entry ox oy)) (bvec q) /\
   bvec (off_unset ox oy t q) = rmvec (rmmul (mis_exit ox oy) (rot (- t))) (bvec q).
-Proof. intros. split; [apply off_set_matrix | apply off_unset_matrix]. Qed.
+Proof. exact off_matrices. Qed.
 
 (** the masks of the code depend on pz only: once they are known for the particle, the coded tracking IS the branch-free model
     (this is the lemma the generated correspondence goals use to select the branch, side conditions proved by interval) *)
@@ -147,11 +181,16 @@ Print Assumptions C07_tdc_off_is_driftx.
 Print Assumptions C07_quadx_step_linear_block.
 Print Assumptions C07_quadx_coefficients_are_Cf_Sf.
 Print Assumptions C07_quadx_block_determinant.
+Print Assumptions C07_quadx_step_block_eps.
+Print Assumptions C07_quadx_ke_distance.
 Print Assumptions C07_quadx_flow_eps0.
 Print Assumptions C07_quadx_num_steps_eps0.
 Print Assumptions C07_quadx_element_flow_eps0.
 Print Assumptions C07_quadx_onaxis.
 Print Assumptions C07_quadx_onaxis_is_driftx.
+Print Assumptions C07_lez_series_close.
+Print Assumptions C07_quadx_onaxis_series_close.
+Print Assumptions C07_quadx_r56.
 Print Assumptions C07_quadx_offset_roundtrip.
 Print Assumptions C07_quadx_offset_linear_part.
 Print Assumptions C07_quadx_branches_resolved.
